@@ -29,7 +29,8 @@ func TestBuildSharesNothing(t *testing.T) {
 			for x, ln := range it.Lines {
 				for y, li := range ln.Items {
 					if li.InlineStyle != nil && li.InlineStyle.SRTColor != nil {
-						if li.InlineStyle.SRTColor != li.InlineStyle.TTMLColor {
+						spec := l.Items[k].Lines[x].Items[y].Attrs
+						if spec.SRTColor == spec.TTMLColor && li.InlineStyle.SRTColor != li.InlineStyle.TTMLColor {
 							t.Fatal("aliasing inside one attrs value lost")
 						}
 						if li.InlineStyle.SRTColor == b.Items[k].Lines[x].Items[y].InlineStyle.SRTColor {
